@@ -56,6 +56,10 @@ CHECKS = {
    text="Every listed public entry point is executed symbolically with caller-held numpy object arrays in the aliasing-friendliest layout (asarray(x, dtype=double) returns x itself, as numpy does for contiguous float64) and symbolic option values (mean, trend, geo_scale, normaliser parameter, measurement errors); after the call sequence every element of every caller array and of every earlier stored / returned field must be the identical object or provably the same value (a satisfying assignment is an option value for which some in-place arithmetic on a view changed it). Entry points: vario_estimate (7 option variants), vario_estimate_axis (plain, NaN, masked array with NaN: also the mask), standard_bins, remove_trend_norm_mean / apply_mean_norm_trend (check_shape x stacked), Field.__call__(field=), SRF / CondSRF calls with two store names, Field.transform (6 method/process/keep_mean combinations, two new names), Krige (4 variants incl. per-point errors, external drift, chunking, set_condition refresh), Normalizer methods (5 classes), fit_variogram (weights, lat-lon), all array_* transforms.",
    note="object arrays differ from float64 arrays only in that every float conversion is treated as 'no copy' (strictly more aliasing than numpy); non-contiguous / non-float64 inputs (copied by numpy) are outside; entry points not listed are outside. Five defects found and fixed (see known_findings.jsonl); their witnesses are replayed as regressions on every run.",
    technique="symbolic execution with identity/value tracking of caller array elements + SMT", ref="DESIGN.md §4 C20"),
+ "C11": dict(engine="E1-symnp + E2-kernel", level="model_checking",
+   text="The real SRF / RandMeth / IncomprRandMeth / Fourier code runs with a symbolic random-number layer (draws are fresh symbols named by the seed VALUE, the sub-stream and the draw index -- numpy's RandomState contract) and with the summation kernels interpreted from summator.pyx. Locality: for 3 symbolic points the value at a point is the same term under permutation, as a single point under another store name, in two batches and on a structured mesh vs the equivalent point list (dim 1-2, anisotropic/rotated in 2-D). Update logic: for every history of <=2 operations (call with seed A / B / no seed, in-place change of var, len_scale, anis, angles by symbolic amounts beyond the library's isclose tolerance, mode_no=, seed=, period=) the next field equals that of a freshly constructed generator with the final model, settings and the seed in effect (quick: all pairs in 1-D, geometric pairs in 2-D; thorough: length 3). Seed identity: the same history with the seed passed as one object vs equal distinct objects gives identical fields including nugget noise.",
+   note="nothing is assumed about the law of the draws; emcee sampling is a stub returning symbolic radii; parameter changes inside the isclose tolerance of CovModel.__eq__ are by design not changes; two defects found and fixed (seed identity, stale Fourier grid).",
+   technique="symbolic execution of generator call histories with a symbolic RNG + SMT equality against a fresh object", ref="DESIGN.md §4 C11"),
 }
 
 PENDING_REASON = "check not built yet in this session (work in progress; see DESIGN.md §7 build order)"
